@@ -18,7 +18,7 @@ pub fn def() -> PropDef {
         job_level,
         run_job,
         replay,
-        rule: "configs = every action-menu entry (≈95 list/atom actions, scaled time constants) in a layer cell and in each of 15 nesting contexts (alias, virtual key, chord v1/v2 action, tap-dance/eager item, fork l/r, switch case, multi member, tap-hold tap/hold/timeout slot, one-shot body, macro item) + every numeric token of every entry replaced by 0/1/65535 + empty-list variants; parser-rejected texts are counted and dropped. For each accepted config: ALL histories of exactly D steps over the unconstrained alphabet {press,release,repeat of a,b (no physical-consistency filter), tap, tick 1, tick 7, vkey toggle/tap via TCP path} followed by an 80-tick settle; plus flood scenarios (17..129 presses / vkey taps without a tick); plus a capacity family with one scenario family per fixed-capacity structure (9..16 layer-while-held keys held at once in three layer arrangements, one-shot chords of 8 key codes feeding the 20-slot repeat buffer, 1..5 keys of 18 key codes each against the 64-slot state vector, switch with 6..12 fall-through cases against the 8-slot action queue, v1 chord decomposition of 3..8 keys, tap-dance with a 20-item list and up to 25 taps, 7..10 tap-hold keys pending at once). Oracle: no panic (dev-profile semantics: overflow + debug_assert panic), no step > 2 s. non-trivial = distinct (config, state digest) nodes; outcome classes = accepted/rejected/per-context.",
+        rule: "configs = every action-menu entry (≈95 list/atom actions, scaled time constants) in a layer cell and in each of 15 nesting contexts (alias, virtual key, chord v1/v2 action, tap-dance/eager item, fork l/r, switch case, multi member, tap-hold tap/hold/timeout slot, one-shot body, macro item) + every numeric token of every entry replaced by 0/1/65535 + empty-list variants; parser-rejected texts are counted and dropped. For each accepted config: ALL histories of exactly D steps over the unconstrained alphabet {press,release,repeat of a,b (no physical-consistency filter), tap, tick 1, tick 7, vkey toggle/tap via TCP path} followed by an 80-tick settle; plus flood scenarios (17..129 presses / vkey taps without a tick); plus minimal configs that use a feature without the optional block it usually comes with (sequence leader or always-on without any defseq, dynamic-macro play/stop without a recording, repeat with nothing to repeat, release of something not held, empty defsrc with deflayermap, a virtual key operating on itself) at one step deeper; plus a capacity family with one scenario family per fixed-capacity structure (9..16 layer-while-held keys held at once in three layer arrangements, one-shot chords of 8 key codes feeding the 20-slot repeat buffer, 1..5 keys of 18 key codes each against the 64-slot state vector, switch with 6..12 fall-through cases against the 8-slot action queue, v1 chord decomposition of 3..8 keys, tap-dance with a 20-item list and up to 25 taps, 7..10 tap-hold keys pending at once). Oracle: no panic (dev-profile semantics: overflow + debug_assert panic), no step > 2 s. non-trivial = distinct (config, state digest) nodes; outcome classes = accepted/rejected/per-context.",
         assumptions: &[
             "dev-profile arithmetic (overflow-checks, debug-assertions) as in the pinned test-suite",
             "clipboard and cmd actions excluded (need OS services / feature off)",
@@ -200,6 +200,22 @@ fn jobs(tier: Tier) -> &'static Vec<Job> {
                 }
             }
             if lvl == 0 {
+                // minimal configs: features used WITHOUT the optional block they usually come with (a
+                // sequence leader but no defseq, play/stop without a recording, repeat with nothing to
+                // repeat, empty defsrc ...)
+                for (tag, cfg) in [
+                    ("sldr-no-defseq", "(defcfg sequence-timeout 6)\n(defsrc a b c)\n(deflayer base sldr b c)\n"),
+                    ("sequence-action-no-defseq", "(defsrc a b c)\n(deflayer base (sequence 6) (sequence 6 hidden-delay-type) (sequence 6 visible-backspaced))\n"),
+                    ("sequence-always-on-no-defseq", "(defcfg sequence-always-on yes sequence-timeout 6)\n(defsrc a b c)\n(deflayer base a b c)\n"),
+                    ("dynmacro-play-stop-only", "(defsrc a b c)\n(deflayer base (dynamic-macro-play 1) (dynamic-macro-record-stop-truncate 3) dynamic-macro-record-stop)\n"),
+                    ("repeat-nothing", "(defsrc a b c)\n(deflayer base rpt rpt-any c)\n"),
+                    ("release-nothing", "(defsrc a b c)\n(deflayer base (release-key lsft) (release-layer base) c)\n"),
+                    ("noerase-cancel-outside-sequence", "(defsrc a b c)\n(deflayer base (sequence-noerase 2) b c)\n"),
+                    ("empty-defsrc-layermap", "(defcfg process-unmapped-keys yes)\n(defsrc)\n(deflayermap (base) a x b (tap-hold 5 5 y lsft))\n"),
+                    ("vkey-ops-on-itself", "(defsrc a b c)\n(defvirtualkeys v1 (on-press toggle-vkey v1))\n(deflayer base (on-press tap-vkey v1) (on-press press-vkey v1) c)\n"),
+                ] {
+                    v.push(Job { tag: format!("minimal/{tag}"), cfg: cfg.to_string(), depth: d_cell + 1, kind: 0, level: 0 });
+                }
                 for (tag, cfg, _) in capacity_scenarios() {
                     v.push(Job { tag: format!("capacity/{tag}"), cfg, depth: 0, kind: 2, level: 0 });
                 }
